@@ -250,7 +250,7 @@ var c15RxCache = map[string]*regexp.Regexp{}
 
 // c15RxFlags is the prefix this build documents as its default (rx.go: "(?sm)" unless the
 // coraza.rule.no_regex_multiline tag is set; the plain flavour does not set it).
-const c15RxFlags = "(?sm)"
+const c15RxFlags = rxBuildWrap
 
 func c15Regexp(pattern string) *regexp.Regexp {
 	if re, ok := c15RxCache[pattern]; ok {
